@@ -74,7 +74,24 @@ def widen(spec, seed):
     import random
 
     r = random.Random(seed ^ 0xC19)
-    if r.random() >= 0.25:
+    u = r.random()
+    if u < 0.015:
+        # a run as large as real inputs: hundreds of mutations in one starting clone (table sizes, growth of lookup tables)
+        n_mut = r.choice([64, 127, 128, 129, 130, 255, 256, 257, 258, 300])
+        big = wp.gen_inputs(r, n_mut=n_mut, n_samples=r.choice([1, 2]), clustered=False)
+        spec["inputs"] = big
+        spec["options"].update(num_iters=1, thin=1, num_particles=1, grid_size=11, burnin=1, subtree_update_prob=0.0, num_samples_data_point=0,
+                               num_samples_prune_regraph=r.choice([0, 1]), proposal="bootstrap", num_chains=1, outlier_prob=r.choice([0.0, 0.01]),
+                               concentration_update=r.random() < 0.5)
+        spec["big"] = True
+        return spec
+    if u < 0.03:
+        # the FFT convolution branch (grids from 1000 points)
+        spec["inputs"] = wp.gen_inputs(r, n_mut=r.choice([2, 3, 4]), n_samples=1, clustered=False)
+        spec["options"].update(grid_size=r.choice([1000, 1001, 1024]), num_iters=r.choice([1, 2]), num_particles=2, num_chains=1, burnin=1)
+        spec["big"] = True
+        return spec
+    if u >= 0.30:
         return spec
     n_mut = r.choice([9, 12, 16, 25, 40])
     n_samples = r.choice([1, 2, 4, 5])
@@ -109,7 +126,7 @@ def widen(spec, seed):
 def task(seed):
     spec = widen(wp.spec_from_seed(seed, boundary=True), seed)
     # keep a single run inside the budget: the cross product is sampled, not the product of all maxima
-    while cost(spec) > 20000:
+    while cost(spec) > 20000 and not spec.get("big"):
         o = spec["options"]
         if o["num_iters"] > 2:
             o["num_iters"] = max(2, o["num_iters"] // 3)
